@@ -452,6 +452,13 @@ impl<T: Clone> RawTable<T> {
     /// Variant of `clone_from` to use when a hasher is available.
     pub(crate) fn clone_from_with_hasher(&mut self, source: &Self, hasher: impl Fn(&T) -> u64) {
         let _ = self.leftovers.take();
+        if self.table.len() == 0 {
+            // hashbrown's `clone_from_with_hasher` re-inserts into `self` after a `clear()` and
+            // then subtracts the number of elements from `growth_left`. Its `clear()` leaves an
+            // empty table as it is though, tombstones included, so `growth_left` may be too
+            // small for that. There is nothing to drop, so reset the table ourselves.
+            self.table.clear_no_drop();
+        }
         self.table.clone_from_with_hasher(&source.table, &hasher);
         // Since we're doing the work of cloning anyway, we might as well carry the leftovers.
         and_carry_with_hasher(&mut self.table, &source.leftovers, hasher);
